@@ -173,9 +173,35 @@ def scopewise(data_json):
     return {"scopes": scopes, "pragmas": [p["content"] for p in data_json["pragmas"]], "includes": [i["filename"] for i in data_json["includes"]]}
 
 
+NS_REPEATABLE = ["class Widget;", "struct G;", "using namespace std;", "using std::x;", "typedef int T;", "extern int v;", "void f(int);",
+                 "enum E : int;", "using A = int;", "namespace al = std;", "static_assert(true, \"\");", "template <typename T> class TT;",
+                 "#include <a.h>", "#pragma once", "template <typename T> void tf(T);", "extern template class X<int>;", "union U;"]
+CLASS_REPEATABLE = ["friend class F;", "int m();", "using B::f;", "typedef int T;", "class Inner;", "enum E2 : int;", "static_assert(true, \"\");",
+                    "friend void ff();", "template <typename Q> void tm(Q);", "using A = int;"]
+
+
+def repeated_texts():
+    """the same declaration written more than once in one result scope: twice in a row, across a re-opened namespace,
+    through an extern block (which shares its parent's scope), around other declarations, in a class body.  Every
+    callback must be stored: the result is the fold of the stream, not a set."""
+    out = []
+    for x in NS_REPEATABLE:
+        sep = "\n" if x.startswith("#") else " "
+        out.append(x + sep + x + "\n")
+        out.append(x + sep + "int between;\n" + x + sep + "struct Other;\n" + x + "\n")
+        out.append("namespace n {\n" + x + "\n}\nnamespace n {\n" + x + "\n" + x + "\n}\n")
+        out.append(x + "\nextern \"C\" {\n" + x + "\n}\n" + x + "\n")
+        out.append("namespace a { namespace b {\n" + x + "\n} }\nnamespace a::b {\n" + x + "\n}\n")
+    for x in CLASS_REPEATABLE:
+        out.append("struct S : B {\n" + x + "\n" + x + "\n};\n")
+        out.append("class C : B {\npublic:\n" + x + "\nint other;\nprivate:\n" + x + "\n" + x + "\n};\n")
+        out.append("struct O { struct I : B {\n" + x + "\n" + x + "\n}; " + x + "\n" + x + "\n};\n")
+    return out
+
+
 def run(ctx):
     rng = ctx.rng("hist")
-    texts = list(pcommon.corpus())
+    texts = repeated_texts() + list(pcommon.corpus())
     for _ in range(ctx.budget(120, 6000)):
         texts.append(gen_prog.gen_program(rng, budget=6)[0])
         texts.append(gen_prog.gen_class_program(rng)[0])
@@ -243,11 +269,11 @@ def run(ctx):
     ctx.oracle("fold_is_fold", len(texts), foldfails)
     ctx.oracle("fault_every_position", nfault, ffails)
     ctx.sample({"input": texts[len(texts) // 3], "n_callbacks": len(impl.impl_parse(texts[len(texts) // 3], "f.h")["events"])})
-    pcommon.parse_corr(ctx, "parse[stream view]", texts[: ctx.budget(500, 8000)], proj=pcommon.proj_stream)
+    pcommon.parse_corr(ctx, "parse[stream view]", texts[: ctx.budget(600, 8000)], proj=pcommon.proj_stream)
     pcommon.parse_corr(ctx, "parse+fault", fault_cases, proj=pcommon.proj_stream)
     # fold correspondence: model's parse_string vs implementation
     if ctx.driver is not None:
-        sub = texts[: ctx.budget(300, 5000)]
+        sub = texts[: ctx.budget(400, 5000)]
         res = ctx.driver.run([{"op": "simple", "text": t, "filename": "f.h"} for t in sub])
         mism = []
         skipped = 0
